@@ -44,8 +44,9 @@ type netFD struct {
 	network       string // tcp, tcp4, tcp6, unix, unixgram, unixpacket
 	localAddr     net.Addr
 	remoteAddr    net.Addr
-	// for detaching conn from poller
-	detaching bool
+	// for detaching conn from poller; written by Detach while another goroutine
+	// (the poller's hang-up path, a concurrent Close) may be closing: atomic
+	detaching uint32
 }
 
 func newNetFD(fd, family, sotype int, net string) *netFD {
